@@ -131,6 +131,14 @@ Proof.
   - apply IH; [exact Ht | intros H; apply Hni; right; exact H].
 Qed.
 
+Lemma NoDup_app_intro_c {A} : forall (l1 l2 : list A), NoDup l1 -> NoDup l2 -> (forall x, In x l1 -> In x l2 -> False) -> NoDup (l1 ++ l2).
+Proof.
+  induction l1 as [|x t IH]; intros l2 H1 H2 Hd; cbn [app]; [exact H2|].
+  inversion H1 as [|? ? Hni Ht]; subst. constructor.
+  - intros Hin. apply in_app_or in Hin. destruct Hin as [Hin|Hin]; [exact (Hni Hin) | exact (Hd x (or_introl eq_refl) Hin)].
+  - apply IH; [exact Ht | exact H2 | intros y Hy1 Hy2; exact (Hd y (or_intror Hy1) Hy2)].
+Qed.
+
 (* changing caller c from a state that has id i to another state that has at most the same id keeps the id facts *)
 Lemma ids_preserved : forall (cs : list (nat * cstate)) n c st0 st1,
   cstate_of c cs = Some st0 -> (forall j, has_id st1 j -> has_id st0 j) ->
@@ -254,3 +262,213 @@ Proof.
       destruct Ho as [Ho|Ho]; inversion Ho; subst. repeat split; [right; reflexivity | exact Hr].
     + exists st, i. rewrite cstate_of_set_other by assumption. repeat split; assumption.
 Qed.
+
+(* delivering a result r to whatever the entry of `id` points at (used by SendFail and Deliver) *)
+Lemma step_deliver_generic : forall s id v r (cs' : list (nat * cstate)) c,
+  cinv s ->
+  In (id, v) (inflight s) ->
+  (* cs' = callers with c possibly moved Registered->Waiting (SendFail) or unchanged (Deliver) *)
+  (cs' = callers s \/ exists i0, cstate_of c (callers s) = Some (CRegistered i0) /\ cs' = set_state c (CWaiting i0) (callers s)) ->
+  (forall c' , v = Some c' -> forall j, r = ROk j -> j = id) ->
+  cinv (mkC (nid s) (remove_if id (inflight s)) (deliver_to v r (bufs s)) (closed s) (wire s) cs').
+Proof.
+  intros s id v r cs' c H Hin Hcs Hrid. unpack H.
+  (* facts about callers in cs' *)
+  assert (Hkeys : map fst cs' = map fst (callers s)) by (destruct Hcs as [->|[i0 [_ ->]]]; [reflexivity | apply map_fst_set_state]).
+  assert (Howed : forall c2 st i, cstate_of c2 (callers s) = Some st -> owed st i -> exists st', cstate_of c2 cs' = Some st' /\ owed st' i).
+  { intros c2 st i Hst Ho. destruct Hcs as [->|[i0 [Ec ->]]]; [exists st; split; assumption|].
+    destruct (Nat.eq_dec c2 c) as [->|Hne].
+    - rewrite Ec in Hst. inversion Hst; subst. exists (CWaiting i0). rewrite cstate_of_set_same by (eapply cstate_of_in; exact Ec).
+      split; [reflexivity|]. destruct Ho as [Ho|Ho]; inversion Ho; subst. right. reflexivity.
+    - exists st. rewrite cstate_of_set_other by assumption. split; assumption. }
+  assert (Hids : (forall c2 st i, cstate_of c2 cs' = Some st -> has_id st i -> i <= nid s) /\
+                 (forall c1 c2 sa sb i, cstate_of c1 cs' = Some sa -> cstate_of c2 cs' = Some sb -> has_id sa i -> has_id sb i -> c1 = c2)).
+  { destruct Hcs as [->|[i0 [Ec ->]]]; [split; assumption|].
+    apply (ids_preserved (callers s) (nid s) c (CRegistered i0) (CWaiting i0) Ec); try assumption.
+    intros j Hj. rewrite (hid_waiting _ _ Hj). right. left. reflexivity. }
+  destruct Hids as [Hid' Hdist'].
+  unfold cinv. cbn [callers inflight bufs nid closed]. rewrite Hkeys.
+  split; [exact Hc|]. split; [apply nodup_map_fst_remove_if; exact Hi|].
+  (* the entry (id, v) is the only one with this id *)
+  assert (Huniq : forall w, In (id, w) (inflight s) -> w = v) by (intros w Hw; exact (nodup_fst_unique _ _ _ _ Hi Hw Hin)).
+  destruct v as [c'|]; cbn [deliver_to].
+  - (* a real caller c' gets the result *)
+    destruct (HI id c' Hin) as [st [Hst Ho]].
+    assert (Hnobuf : ~ In c' (map fst (bufs s))).
+    { intros Hb2. apply in_map_iff in Hb2. destruct Hb2 as [[c0 r0] [Hf Hb2]]. cbn [fst] in Hf. subst c0.
+      exact (proj2 (HB c' r0 Hb2) id Hin). }
+    (* c' has no other entry: any entry (i, Some c') has i = id (same caller, ids agree) hence is this one *)
+    assert (Honly : forall i, In (i, Some c') (inflight s) -> i = id).
+    { intros i Hin2. destruct (HI i c' Hin2) as [st2 [Hst2 Ho2]]. rewrite Hst in Hst2. inversion Hst2; subst st2.
+      destruct Ho as [Ho|Ho], Ho2 as [Ho2|Ho2]; subst; inversion Ho2; reflexivity. }
+    split; [rewrite map_app; cbn [map fst]; apply nodup_snoc_c; assumption|].
+    split; [|split; [|split; [exact Hid'|split; [exact Hdist'|]]]].
+    + intros i c2 Hin2. apply in_remove_if in Hin2. destruct Hin2 as [Hin2 _].
+      destruct (HI i c2 Hin2) as [st2 [Hst2 Ho2]]. exact (Howed c2 st2 i Hst2 Ho2).
+    + intros c0 r0 Hin2. apply in_app_or in Hin2. destruct Hin2 as [Hin2|[Hin2|[]]].
+      * destruct (HB c0 r0 Hin2) as [[st2 [i [Hst2 [Ho2 Hr]]]] Hno]. split.
+        -- destruct (Howed c0 st2 i Hst2 Ho2) as [st' [Hst' Ho']]. exists st', i. repeat split; assumption.
+        -- intros i2 Hin3. apply in_remove_if in Hin3. exact (Hno i2 (proj1 Hin3)).
+      * inversion Hin2; subst c0 r0. split.
+        -- destruct (Howed c' st id Hst Ho) as [st' [Hst' Ho']]. exists st', id. repeat split; try assumption. exact (Hrid c' eq_refl).
+        -- intros i2 Hin3. apply in_remove_if in Hin3. destruct Hin3 as [Hin3 Hne]. cbn [fst] in Hne. apply Hne. exact (Honly i2 Hin3).
+    + intros Hclosed i c2 Hin2. apply in_remove_if in Hin2. exact (Hcl Hclosed i c2 (proj1 Hin2)).
+  - (* hijacked entry: the result goes to a channel nobody reads *)
+    split; [exact Hb|]. split; [|split; [|split; [exact Hid'|split; [exact Hdist'|]]]].
+    + intros i c2 Hin2. apply in_remove_if in Hin2. destruct Hin2 as [Hin2 _].
+      destruct (HI i c2 Hin2) as [st2 [Hst2 Ho2]]. exact (Howed c2 st2 i Hst2 Ho2).
+    + intros c0 r0 Hin2. destruct (HB c0 r0 Hin2) as [[st2 [i [Hst2 [Ho2 Hr]]]] Hno]. split.
+      * destruct (Howed c0 st2 i Hst2 Ho2) as [st' [Hst' Ho']]. exists st', i. repeat split; assumption.
+      * intros i2 Hin3. apply in_remove_if in Hin3. exact (Hno i2 (proj1 Hin3)).
+    + intros Hclosed i c2 Hin2. apply in_remove_if in Hin2. exact (Hcl Hclosed i c2 (proj1 Hin2)).
+Qed.
+
+Lemma step_SendFail : forall s c s', cinv s -> cstep s (SendFail c) = Some s' -> cinv s'.
+Proof.
+  intros s c s' H Hs. cbn [cstep] in Hs.
+  destruct (cstate_of c (callers s)) as [[| |id| |]|] eqn:Ec; try discriminate.
+  destruct (lookup_if id (inflight s)) as [v|] eqn:El; inversion Hs; subst s'; clear Hs.
+  - apply (step_deliver_generic s id v RSendErr _ c H (lookup_if_in _ _ _ El)).
+    + right. exists id. split; [exact Ec | reflexivity].
+    + intros c' _ j Hj. discriminate.
+  - (* the entry is already gone (a reply or the broadcast took it): only the caller's own state changes *)
+    unpack H. pose proof (cstate_of_in _ _ _ Ec) as Hinc.
+    destruct (ids_preserved (callers s) (nid s) c (CRegistered id) (CWaiting id) Ec) as [Hid' Hdist']; try assumption.
+    { intros j Hj. rewrite (hid_waiting _ _ Hj). right. left. reflexivity. }
+    unfold cinv. cbn [callers inflight bufs nid closed]. rewrite map_fst_set_state.
+    split; [exact Hc|]. split; [exact Hi|]. split; [exact Hb|]. split; [|split; [|split; [exact Hid'|split; [exact Hdist'|exact Hcl]]]].
+    + intros i c2 Hin. destruct (HI i c2 Hin) as [st [Hst Ho]]. destruct (Nat.eq_dec c2 c) as [->|Hne].
+      * rewrite Ec in Hst. inversion Hst; subst. exists (CWaiting id). rewrite cstate_of_set_same by exact Hinc.
+        split; [reflexivity|]. destruct Ho as [Ho|Ho]; inversion Ho; subst. right. reflexivity.
+      * exists st. rewrite cstate_of_set_other by assumption. split; assumption.
+    + intros c0 r Hin. destruct (HB c0 r Hin) as [[st [i [Hst [Ho Hr]]]] Hno]. split; [|exact Hno].
+      destruct (Nat.eq_dec c0 c) as [->|Hne].
+      * rewrite Ec in Hst. inversion Hst; subst. exists (CWaiting id), id. rewrite cstate_of_set_same by exact Hinc.
+        destruct Ho as [Ho|Ho]; inversion Ho; subst. repeat split; [right; reflexivity | exact Hr].
+      * exists st, i. rewrite cstate_of_set_other by assumption. repeat split; assumption.
+Qed.
+
+Lemma step_Deliver : forall s id s', cinv s -> cstep s (Deliver id) = Some s' -> cinv s'.
+Proof.
+  intros s id s' H Hs. cbn [cstep] in Hs. destruct (closed s) eqn:Ecl; [discriminate|].
+  destruct (lookup_if id (inflight s)) as [v|] eqn:El; inversion Hs; subst s'; clear Hs.
+  rewrite <- Ecl.
+  apply (step_deliver_generic s id v (ROk id) (callers s) 0 H (lookup_if_in _ _ _ El)).
+  - left. reflexivity.
+  - intros c' _ j Hj. inversion Hj. reflexivity.
+Qed.
+
+Lemma step_RecvFail : forall s s', cinv s -> cstep s RecvFail = Some s' -> cinv s'.
+Proof.
+  intros s s' H Hs. unpack H. cbn [cstep] in Hs. destruct (closed s) eqn:Ecl; [discriminate|]. inversion Hs; subst s'. clear Hs.
+  set (added := flat_map (fun e => match snd e with Some c => [(c, RConnLost)] | None => [] end) (inflight s)).
+  assert (Hadd : forall c r, In (c, r) added <-> r = RConnLost /\ exists i, In (i, Some c) (inflight s)).
+  { intros c r. unfold added. rewrite in_flat_map. split.
+    - intros [[i [c'|]] [Hin Hx]]; cbn [snd] in Hx; [|destruct Hx]. destruct Hx as [Hx|[]]. inversion Hx; subst. split; [reflexivity | exists i; exact Hin].
+    - intros [-> [i Hin]]. exists (i, Some c). split; [exact Hin | left; reflexivity]. }
+  (* the callers that get the broadcast are pairwise distinct: one entry per caller *)
+  assert (Hnd_added : NoDup (map fst added)).
+  { unfold added. clear Hadd. revert HI Hi. generalize (inflight s) as l. induction l as [|[i [c|]] t IH]; intros HI Hi; cbn [flat_map snd app map fst].
+    - constructor.
+    - cbn [map fst] in Hi. inversion Hi as [|? ? Hni Ht]; subst. constructor.
+      + intros Hin. apply in_map_iff in Hin. destruct Hin as [[c0 r0] [Hf Hin]]. cbn [fst] in Hf. subst c0.
+        apply in_flat_map in Hin. destruct Hin as [[i2 [c2|]] [Hin2 Hx]]; cbn [snd] in Hx; [|destruct Hx]. destruct Hx as [Hx|[]]. inversion Hx; subst c2.
+        destruct (HI i c (or_introl eq_refl)) as [st [Hst Ho]]. destruct (HI i2 c (or_intror Hin2)) as [st2 [Hst2 Ho2]].
+        rewrite Hst in Hst2. inversion Hst2; subst st2.
+        assert (i2 = i) by (destruct Ho as [Ho|Ho], Ho2 as [Ho2|Ho2]; subst; inversion Ho2; reflexivity). subst i2.
+        apply Hni. apply in_map_iff. exists (i, Some c). split; [reflexivity | exact Hin2].
+      + apply IH; [intros i2 c2 Hin2; exact (HI i2 c2 (or_intror Hin2)) | exact Ht].
+    - cbn [map fst] in Hi. inversion Hi; subst. apply IH; [intros i2 c2 Hin2; exact (HI i2 c2 (or_intror Hin2)) | assumption]. }
+  unfold cinv. cbn [callers inflight bufs nid closed].
+  assert (Hnone : forall i c, ~ In (i, Some c) (map (fun e => (fst e, @None nat)) (inflight s))).
+  { intros i c Hin. apply in_map_iff in Hin. destruct Hin as [e [He _]]. inversion He. }
+  split; [exact Hc|]. split; [rewrite map_map; cbn [fst]; exact Hi|].
+  split.
+  { rewrite map_app. apply NoDup_app_intro_c; [exact Hb | exact Hnd_added|].
+    intros c Hin1 Hin2. apply in_map_iff in Hin1. destruct Hin1 as [[c1 r1] [Hf1 Hin1]]. cbn [fst] in Hf1. subst c1.
+    apply in_map_iff in Hin2. destruct Hin2 as [[c2 r2] [Hf2 Hin2]]. cbn [fst] in Hf2. subst c2.
+    apply Hadd in Hin2. destruct Hin2 as [_ [i Hin2]]. exact (proj2 (HB c r1 Hin1) i Hin2). }
+  split; [intros i c Hin; exfalso; exact (Hnone i c Hin)|].
+  split.
+  { intros c r Hin. split; [|intros i; apply Hnone]. apply in_app_or in Hin. destruct Hin as [Hin|Hin].
+    - exact (proj1 (HB c r Hin)).
+    - apply Hadd in Hin. destruct Hin as [-> [i Hin]]. destruct (HI i c Hin) as [st [Hst Ho]].
+      exists st, i. repeat split; try assumption. intros j Hj. discriminate. }
+  split; [exact Hid|]. split; [exact Hdist|]. intros _. apply Hnone.
+Qed.
+
+Lemma step_Take : forall s c s', cinv s -> cstep s (Take c) = Some s' -> cinv s'.
+Proof.
+  intros s c s' H Hs. unpack H. cbn [cstep] in Hs.
+  destruct (cstate_of c (callers s)) as [[| | |id|]|] eqn:Ec; try discriminate.
+  destruct (take_buf c (bufs s)) as [[r rest]|] eqn:Et; [|discriminate]. inversion Hs; subst s'. clear Hs.
+  pose proof (cstate_of_in _ _ _ Ec) as Hinc.
+  destruct (take_buf_spec _ _ _ _ Et) as [Hin [Hsub Hnd]]. destruct (Hnd Hb) as [Hnotin Hnd'].
+  destruct (ids_preserved (callers s) (nid s) c (CWaiting id) (CDone id r) Ec) as [Hid' Hdist']; try assumption.
+  { intros j Hj. rewrite (hid_done _ _ _ Hj). right. right. left. reflexivity. }
+  assert (Hnoentry : forall i, ~ In (i, Some c) (inflight s)) by (intros i; exact (proj2 (HB c r Hin) i)).
+  unfold cinv. cbn [callers inflight bufs nid closed]. rewrite map_fst_set_state.
+  split; [exact Hc|]. split; [exact Hi|]. split; [exact Hnd'|]. split; [|split; [|split; [exact Hid'|split; [exact Hdist'|exact Hcl]]]].
+  - intros i c2 Hin2. destruct (HI i c2 Hin2) as [st [Hst Ho]].
+    assert (c2 <> c) by (intros ->; exact (Hnoentry i Hin2)).
+    exists st. rewrite cstate_of_set_other by assumption. split; assumption.
+  - intros c0 r0 Hin2. specialize (Hsub _ Hin2). destruct (HB c0 r0 Hsub) as [[st [i [Hst [Ho Hr]]]] Hno]. split; [|exact Hno].
+    assert (c0 <> c) by (intros ->; apply Hnotin; apply in_map_iff; exists (c, r0); split; [reflexivity | exact Hin2]).
+    exists st, i. rewrite cstate_of_set_other by assumption. repeat split; assumption.
+Qed.
+
+Theorem cinv_step : forall s l s', cinv s -> cstep s l = Some s' -> cinv s'.
+Proof.
+  intros s l s' H Hs. destruct l.
+  - eapply step_NextID; eassumption.
+  - eapply step_Put; eassumption.
+  - eapply step_SendOK; eassumption.
+  - eapply step_SendFail; eassumption.
+  - eapply step_Deliver; eassumption.
+  - eapply step_RecvFail; eassumption.
+  - eapply step_Take; eassumption.
+Qed.
+
+Theorem cinv_run : forall n tr s, crun (cinit n) tr = Some s -> cinv s.
+Proof.
+  intros n tr. assert (H : cinv (cinit n)) by apply cinv_init. revert H. generalize (cinit n).
+  induction tr as [|l tr IH]; intros s0 H s Hr; cbn [crun] in Hr; [inversion Hr; subst; exact H|].
+  destruct (cstep s0 l) as [s1|] eqn:E; [|discriminate]. eapply IH; [eapply cinv_step; eassumption | exact Hr].
+Qed.
+
+(* ---------- C03: a caller that takes a reply takes the reply to its own request ---------- *)
+Theorem own_reply_at_take : forall n tr s c s' id r,
+  crun (cinit n) tr = Some s -> cstep s (Take c) = Some s' ->
+  cstate_of c (callers s') = Some (CDone id r) -> forall j, r = ROk j -> j = id.
+Proof.
+  intros n tr s c s' id r Hrun Hs Hst j Hj. pose proof (cinv_run n tr s Hrun) as H. unpack H.
+  cbn [cstep] in Hs. destruct (cstate_of c (callers s)) as [[| | |id0|]|] eqn:Ec; try discriminate.
+  destruct (take_buf c (bufs s)) as [[r0 rest]|] eqn:Et; [|discriminate]. inversion Hs; subst s'. clear Hs.
+  cbn [callers] in Hst. rewrite cstate_of_set_same in Hst by (eapply cstate_of_in; exact Ec). inversion Hst; subst id0 r0.
+  destruct (take_buf_spec _ _ _ _ Et) as [Hin _]. destruct (HB c r Hin) as [[st [i [Hst2 [Ho Hr]]]] _].
+  rewrite Ec in Hst2. inversion Hst2; subst st. destruct Ho as [Ho|Ho]; inversion Ho; subst i. exact (Hr j Hj).
+Qed.
+
+(* ids in flight are pairwise distinct, and every id in flight was issued by the counter *)
+Theorem inflight_ids_distinct : forall n tr s, crun (cinit n) tr = Some s -> NoDup (map fst (inflight s)).
+Proof. intros n tr s H. pose proof (cinv_run n tr s H) as Hc. unpack Hc. exact Hi. Qed.
+
+Theorem caller_ids_distinct : forall n tr s c1 c2 st1 st2 i, crun (cinit n) tr = Some s ->
+  cstate_of c1 (callers s) = Some st1 -> cstate_of c2 (callers s) = Some st2 -> has_id st1 i -> has_id st2 i -> c1 = c2.
+Proof. intros n tr s c1 c2 st1 st2 i H. pose proof (cinv_run n tr s H) as Hc. unpack Hc. apply Hdist. Qed.
+
+(* ---------- C04: every waiting caller is notified at most once; nothing is ever sent to a caller that is not waiting ---------- *)
+Theorem at_most_one_result : forall n tr s, crun (cinit n) tr = Some s ->
+  NoDup (map fst (bufs s)) /\
+  (forall c r, In (c, r) (bufs s) -> (exists st i, cstate_of c (callers s) = Some st /\ owed st i) /\ forall i, ~ In (i, Some c) (inflight s)) /\
+  (forall i c, In (i, Some c) (inflight s) -> exists st, cstate_of c (callers s) = Some st /\ owed st i).
+Proof.
+  intros n tr s H. pose proof (cinv_run n tr s H) as Hc. unpack Hc. split; [exact Hb|]. split; [|exact HI].
+  intros c r Hin. destruct (HB c r Hin) as [[st [i [Hst [Ho _]]]] Hno]. split; [exists st, i; split; assumption | exact Hno].
+Qed.
+
+(* once the receiver has failed, no entry points at a caller any more: every later send error or stray reply goes to a
+   channel nobody waits on, and new callers are refused at registration with the error on their own channel *)
+Theorem after_loss_no_live_entry : forall n tr s, crun (cinit n) tr = Some s -> closed s = true ->
+  forall i c, ~ In (i, Some c) (inflight s).
+Proof. intros n tr s H Hclosed. pose proof (cinv_run n tr s H) as Hc0. unpack Hc0. exact (Hcl Hclosed). Qed.
